@@ -4,6 +4,114 @@ import "io"
 
 func init() {
 	vsymHarnesses["HarnessC02Chunks"] = HarnessC02Chunks
+	vsymHarnesses["HarnessC02Big"] = HarnessC02Big
+}
+
+// bigReader delivers a long stream greedily (as much as the caller's buffer takes) except for one
+// segment boundary at offset split (0 = none): the read that would cross it stops there.
+type bigReader struct {
+	data  []byte
+	pos   int
+	split int
+}
+
+func (r *bigReader) Read(p []byte) (int, error) {
+	if r.pos >= len(r.data) {
+		return 0, io.EOF
+	}
+	if len(p) == 0 {
+		return 0, nil
+	}
+	k := len(r.data) - r.pos
+	if len(p) < k {
+		k = len(p)
+	}
+	if r.split > 0 && r.pos < r.split && r.pos+k > r.split {
+		k = r.split - r.pos
+	}
+	copy(p, r.data[r.pos:r.pos+k])
+	r.pos += k
+	return k, nil
+}
+
+// refBig builds a bulk node of n bytes: symbolic first and last byte, concrete filler.
+func refBig(n int) *refNode {
+	pl := make([]byte, n)
+	for i := range pl {
+		pl[i] = byte('a' + i%23)
+	}
+	if n > 0 {
+		pl[0] = vsymByte("first")
+		pl[n-1] = vsymByte("last")
+	}
+	return &refNode{typ: 3, payload: pl}
+}
+
+// refLine draws a line-type node (status, error or integer text) of exactly l symbolic bytes.
+func refLine(typ, l int) *refNode {
+	n := &refNode{typ: typ, payload: vsymBytes("line", l)}
+	for _, b := range n.payload {
+		vsymAssume(b != '\r')
+		vsymAssume(b != '\n')
+	}
+	return n
+}
+
+// HarnessC02Big: a long stream (a bulk string of n bytes between short values of every type, then
+// a request-like array) delivered greedily with one segment boundary at any of the interesting
+// offsets: every value comes back intact, in order, and stays intact while the parser reads on.
+func HarnessC02Big() {
+	n := vsymParamInt("n", 5000)
+	vsymUnwind(n + 64)
+	nodes := []*refNode{
+		refLine(0, 2),
+		{typ: 4, kids: []*refNode{refLine(1, 2), refBig(n), refLine(2, 1)}},
+		refLine(0, 1),
+		{typ: 4, kids: []*refNode{{typ: 3, payload: []byte("PING")}}},
+		refLine(2, 1),
+	}
+	var stream []byte
+	var ends []int
+	for _, nd := range nodes {
+		stream = append(stream, refEncode(nd)...)
+		ends = append(ends, len(stream))
+	}
+	r := &bigReader{data: stream}
+	switch vsymChoice("split", 7) {
+	case 0: // one segment
+	case 1:
+		r.split = ends[0]
+	case 2:
+		r.split = ends[1] - 1 // between the CR and LF that end the array's last element
+	case 3:
+		r.split = ends[1]
+	case 4:
+		r.split = ends[1] + 1
+	case 5:
+		r.split = ends[0] + 12 + vsymChoice("inbulk", 3)*(n/2) // inside the array header / the bulk body
+	case 6:
+		r.split = 1
+	}
+	p := NewParserWithReader(r)
+	var gots []*Message
+	for i, nd := range nodes {
+		got, err := p.Next()
+		vsymAssert(err == nil && got != nil, "value-present")
+		if err != nil || got == nil {
+			return
+		}
+		vsymAssert(refSame(got, nd), "value-equals-sent")
+		vsymAssert(r.pos >= ends[i], "value-returned-only-after-its-last-byte-arrived")
+		gots = append(gots, got)
+	}
+	rest, err := p.Next()
+	vsymAssert(err == nil && rest == nil, "clean-end-of-stream")
+	for i, nd := range nodes {
+		vsymAssert(refSame(gots[i], nd), "value-unchanged-by-later-reads")
+		re, err := gots[i].RESPBytes()
+		vsymAssert(err == nil && refBytesEq(re, refEncode(nd)), "reserialise-reproduces-input")
+	}
+	vsymCover("end")
 }
 
 // chunkReader delivers a byte stream in read sizes chosen by the environment: each Read returns
@@ -59,6 +167,7 @@ func HarnessC02Chunks() {
 	}
 	r := &chunkReader{data: stream}
 	p := NewParserWithReader(r)
+	var gots []*Message
 	for i, n := range nodes {
 		got, err := p.Next()
 		vsymAssert(err == nil, "no-error")
@@ -67,10 +176,17 @@ func HarnessC02Chunks() {
 			return
 		}
 		vsymAssert(refSame(got, n), "value-equals-sent")
-		vsymAssert(r.pos == ends[i], "consumes-exactly-own-bytes")
+		// the transport position may run ahead of the value (a buffering parser is allowed); it can never lag behind it
+		vsymAssert(r.pos >= ends[i], "value-returned-only-after-its-last-byte-arrived")
+		gots = append(gots, got)
 	}
 	rest, err := p.Next()
 	vsymAssert(err == nil && rest == nil, "clean-end-of-stream")
+	vsymAssert(r.pos == len(stream), "whole-stream-consumed-at-end")
+	// values handed out earlier are still what was sent after the parser has read on
+	for i, n := range nodes {
+		vsymAssert(refSame(gots[i], n), "value-unchanged-by-later-reads")
+	}
 	if r.partial {
 		vsymCover("partial-bulk-read")
 	}
